@@ -1012,6 +1012,8 @@ int main(int argc, char** argv)
             sigaction(SIGFPE, &sa, nullptr);
             sigaction(SIGBUS, &sa, nullptr);
             sigaction(SIGABRT, &sa, nullptr);
+            sigaction(SIGALRM, &sa, nullptr);
+            alarm(90);          // watchdog: no case needs more than a few seconds (TIMELIMIT is 10 s per solve)
          }
 
          if(!handlers || sigsetjmp(jb, 1) == 0)
@@ -1036,6 +1038,9 @@ int main(int argc, char** argv)
             fflush(stdout);
             _exit(3);
          }
+
+         if(handlers)
+            alarm(0);
 
          printf("ENDCASE %s\n", id.c_str());
          fflush(stdout);
